@@ -68,6 +68,8 @@ func checkC03(c *Ctx) {
 	c.checkPins(f, "C03.ab", c03Pins)
 	checkExternalNamesQualified(c, "C03.c", f)
 	checkListOrder(c, "C03.e", f)
+	r.Rule("C03.f", "the type-parameter list of every declaration value is the declared list (a parameter, an existing .Tparams, or the identifiers the parser read between < and >): explicit type arguments bind by position", 8)
+	checkTparamsProvenance(c, "C03.f", f)
 	checkRelevantReviewedForms(c, f, "C03.z", "the output buffer (functions that write emitted Go text)", primSet("buf.Write", "buf.New", "buf.String"), 25)
 	// "mapped field types", payload and parameter types: the type parser and printer of C15
 	r.Import("C15.", "C03.d", "", 20, func() { checkC15(c) })
